@@ -596,6 +596,18 @@ func fatHeldScript() []fatOp {
 	}
 }
 
+// fatFullScript: calls that need a free cluster or a directory slot made on a volume that has just been
+// filled until a write was refused - each may be refused, none may damage anything - then space is
+// released piecewise and used again
+func fatFullScript() []fatOp {
+	return []fatOp{
+		{A: "Create", P: "L1"}, {A: "Fill", P: "L1", Tag: 1}, {A: "Mkdir", P: "D"}, {A: "Create", P: "A"}, {A: "Append", P: "A", Len: 5, Tag: 2}, {A: "Churn", P: "", K: 40},
+		{A: "Create", P: "L2"}, {A: "Rename", P: "L1", Q: "L2"}, {A: "Hold", P: "L2"}, {A: "Create", P: "b"}, {A: "Append", P: "L2", Len: 1, Tag: 3, Held: true},
+		{A: "Trunc", P: "L2"}, {A: "Mkdir", P: "D"}, {A: "Create", P: "D/A"}, {A: "Fill", P: "D/A", Tag: 4}, {A: "Mkdir", P: "E"}, {A: "Rename", P: "D", Q: "E"}, {A: "Create", P: "b"},
+		{A: "Remove", P: "D/A"}, {A: "Remove", P: "E/A"}, {A: "Fill", P: "L2", Tag: 5}, {A: "Remove", P: "L2"}, {A: "Churn", P: "", K: 40}, {A: "Create", P: "A"}, {A: "Fill", P: "A", Tag: 6},
+	}
+}
+
 func fatTraceBytes(behs [][]map[string]any) ([]byte, []int) {
 	var buf bytes.Buffer
 	var first []int
